@@ -103,6 +103,12 @@ def run_posterior(case, ctx: Ctx):
         rtol, atol = 1e-4, 1e-5
     else:
         rtol = atol = G.chol_tol(kappa, kern.smooth_at_zero(case["kernel"]))
+    if kern._contains(case["kernel"], "Prod") and kern._contains(case["kernel"], "Linear"):
+        # a product kernel with a LinearKernel factor is evaluated as MulLinearOperator(root, root): the dependency takes root
+        # decompositions of the factors (Cholesky with its 1e-8 .. 1e-6 jitter on rank-deficient factors, Lanczos above
+        # max_cholesky_size), so the kernel matrix itself depends on the settings at that level
+        floor = 2e-3 if (s["max_chol"] == 0 and s["fc"][0]) else 1e-6
+        rtol, atol = max(rtol, floor), max(atol, floor)
     scale = max(1.0, float(cov_w.abs().max()), float(mean_w.abs().max()))
 
     test_noise = case.get("test_noise")
@@ -137,8 +143,10 @@ def run_posterior(case, ctx: Ctx):
         ctx.close("train_cg_invariance.mean", gm, gm2, rtol=1e-7, atol=1e-7, scale=scale)
         ctx.close("train_cg_invariance.cov", gc, gc2, rtol=1e-7, atol=1e-7, scale=scale)
     if case["prior_mode"]:
+        prod_root = kern._contains(case["kernel"], "Prod") and kern._contains(case["kernel"], "Linear")
         ctx.close("prior_mode.mean", pm, ms.expand(*bshape, ns), rtol=1e-9, atol=1e-11)
-        ctx.close("prior_mode.cov", pc, Kss.expand(*bshape, ns, ns), rtol=1e-9, atol=1e-11)
+        ctx.close("prior_mode.cov", pc, Kss.expand(*bshape, ns, ns), rtol=rtol if prod_root else 1e-9, atol=atol if prod_root else 1e-11,
+                  scale=scale if prod_root else None)
     ctx.close("mean", gm, mean_w, rtol=rtol, atol=atol, scale=scale)
     if s["skip_var"]:
         ctx.close("skipped.cov_is_zero", gc, torch.zeros_like(cov_w), rtol=0, atol=0)
